@@ -703,7 +703,19 @@ pub fn drive(
         // gets duplicates / equal-length variants injected; sometimes it is
         // grown to 21..64 patterns, the range in which the packed searcher's
         // internal pattern ordering matters.
-        let (pats, alpha) = if li % 4 == 3 {
+        let (pats, alpha) = if li % 24 == 7 {
+            // around the packed searcher's hard limit of 128 patterns: 120..200
+            // patterns of length 2..5 over six symbols (many start bytes, no
+            // usable rare-byte set, so the packed prefilter is in play)
+            let alpha = b"abcdef".to_vec();
+            let n = rng.range(120, 200);
+            let mut p: Vec<Vec<u8>> = vec![];
+            for _ in 0..n {
+                let l = rng.range(2, 5);
+                p.push(gen::rand_string(&mut rng, &alpha, l));
+            }
+            (p, alpha)
+        } else if li % 4 == 3 {
             let (mut p, _) = crate::meta::prefilter_patterns(&mut rng);
             let alpha: Vec<u8> = {
                 let mut a: Vec<u8> = p.iter().flat_map(|q| q.iter().copied()).take(10).collect();
